@@ -1511,6 +1511,9 @@ func (s *ImmuStore) isSingleVLogFastPath() bool {
 
 func (s *ImmuStore) fetchAnyVLog() (vLodID byte, vLog appendable.Appendable) {
 	if s.isSingleVLogFastPath() {
+		if simhook.Enabled {
+			simhook.BeforeLock("store.singleVLogMu", s.simTrySingleVLogMu)
+		}
 		s.singleVLogMu.Lock()
 		return 1, s.vLogs[0].vLog
 	}
@@ -1520,6 +1523,11 @@ func (s *ImmuStore) fetchAnyVLog() (vLodID byte, vLog appendable.Appendable) {
 
 	for s.vLogUnlockedList.Len() == 0 {
 		s.vLogsCond.Wait()
+		if simhook.Enabled {
+			s.vLogsCond.L.Unlock()
+			simhook.Yield("vlog-cond-wake")
+			s.vLogsCond.L.Lock()
+		}
 	}
 
 	vLogID := s.vLogUnlockedList.Remove(s.vLogUnlockedList.Front()).(byte) + 1
@@ -1544,6 +1552,9 @@ func (s *ImmuStore) fetchVLog(vLogID byte) (appendable.Appendable, error) {
 		if vLogID != 1 {
 			return nil, fmt.Errorf("%w: invalid vLogID %d for single-vLog store", ErrUnexpectedError, vLogID)
 		}
+		if simhook.Enabled {
+			simhook.BeforeLock("store.singleVLogMu", s.simTrySingleVLogMu)
+		}
 		s.singleVLogMu.Lock()
 		return s.vLogs[0].vLog, nil
 	}
@@ -1557,6 +1568,11 @@ func (s *ImmuStore) fetchVLog(vLogID byte) (appendable.Appendable, error) {
 
 	for s.vLogs[vLogID-1].unlockedRef == nil {
 		s.vLogsCond.Wait()
+		if simhook.Enabled {
+			s.vLogsCond.L.Unlock()
+			simhook.Yield("vlog-cond-wake")
+			s.vLogsCond.L.Lock()
+		}
 	}
 
 	s.vLogUnlockedList.Remove(s.vLogs[vLogID-1].unlockedRef)
@@ -1603,6 +1619,9 @@ func (s *ImmuStore) appendValuesIntoAnyVLog(entries []*EntrySpec) (offsets []int
 	offsets, err = s.appendValuesInto(entries, vLog)
 	if err != nil {
 		return nil, err
+	}
+	if simhook.Enabled {
+		simhook.Yield("vlog-held")
 	}
 
 	for i := 0; i < len(offsets); i++ {
